@@ -272,6 +272,17 @@ func (ms *MatrixSetup) UnmarshalOrdered(o any) error {
 		if err := ordered.Unmarshal(src, (*map[string][]string)(ms)); err != nil {
 			return err
 		}
+		// A dimension declared without values (`os: ~`) is written as
+		// `"os": null` in JSON but as `os: []` in YAML, and a nil list is
+		// treated as an unknown dimension by validatePermutation whereas an
+		// empty one is not. The dimension is declared, so settle on an empty
+		// list: the matrix (and hence its signature) is then the same after
+		// it is read back.
+		for dim, vals := range *ms {
+			if vals == nil {
+				(*ms)[dim] = []string{}
+			}
+		}
 
 	default:
 		return fmt.Errorf("unsupported src type for MatrixSetup: %T", o)
